@@ -178,6 +178,35 @@ def check_offset_line(L, a, k):
     return []
 
 
+def check_extend_multi(L, a, dist, circular):
+    """extension of a multi-exon location that does not cross the origin: the statement fixes what happens outside the location
+    (everything within the distance of its two outer ends, wrapped on a ring) and inside its exons; whether an extension that
+    runs all the way round into an intron fills it is left open, so introns may or may not be covered"""
+    rec = _REC[(L, circular)]
+    before = enc(a)
+    try:
+        res = rec.extend_location(a, dist)
+    except Exception as err:  # pylint: disable=broad-except
+        return [("extend-raised", repr(err)[:100])]
+    fails = []
+    if enc(a) != before:
+        fails.append(("extend-mutated-input", enc(a)))
+    why = R.well_formed_parts(res, L)
+    if why:
+        return fails + [("extend-wellformed", f"{why}: {res}")]
+    start, end = int(a.start), int(a.end)
+    outward = set(range(start - dist, start)) | set(range(end, end + dist))
+    outward = {x % L for x in outward} if circular else {x for x in outward if 0 <= x < L}
+    lower = R.bases(a) | outward
+    upper = lower | set(range(start, end))
+    got = R.bases(res)
+    if not lower <= got:
+        fails.append(("extend-multi-exon-misses-bases", f"{res} lacks {sorted(lower - got)}"))
+    if not got <= upper:
+        fails.append(("extend-multi-exon-extra-bases", f"{res} adds {sorted(got - upper)}"))
+    return fails
+
+
 def check_extend(L, a, dist, circular):
     rec = _REC[(L, circular)]
     before = enc(a)
@@ -427,6 +456,19 @@ def run_shard(shard):
                         res.fail(case, clause, detail)
                     if res.evals % 1999 == 1:
                         res.sample(case)
+            if L <= 9:
+                for a in _multi_exon(L):
+                    for dist in range(0, L + 2):
+                        res.evals += 1
+                        res.nontrivial += 1 if dist else 0
+                        case = {"op": "extend-multi", "L": L, "circular": circular, "a": enc(a), "d": dist}
+                        fails = check_extend_multi(L, a, dist, circular)
+                        res.buckets["extend:multi-exon"] += 1
+                        res.outcomes[("extend-multi", circular, not fails)] += 1
+                        for clause, detail in fails:
+                            res.fail(case, clause, detail)
+                        if res.evals % 1999 == 1:
+                            res.sample(case)
     elif kind == "string":
         for strand in (1, -1, None, 0):
             for a in simple(L, strand):
@@ -535,6 +577,10 @@ def _redundant_exons(L):
         for b in simple(L, 1):
             if R.bases(b) <= R.bases(a) or R.bases(a) <= R.bases(b):
                 out.append(C([a, b]))
+                if L <= 6:
+                    # and with a third exon anywhere (before, between or after in the stored order)
+                    for c in simple(L, 1):
+                        out.extend([C([a, b, c]), C([a, c, b]), C([c, a, b])])
     return out
 
 
@@ -594,6 +640,8 @@ def replay(case):
         return check_offset_line(L, dec(case["a"]), case["k"])
     if op == "extend":
         return check_extend(L, dec(case["a"]), case["d"], case["circular"])
+    if op == "extend-multi":
+        return check_extend_multi(L, dec(case["a"]), case["d"], case["circular"])
     if op == "string":
         return check_string(L, dec(case["a"]), case["bridging"])
     if op == "lt":
